@@ -355,22 +355,43 @@ fn ergsym_created_large_before_activation(run: &Run, thorough: bool) {
         steps.push(Action::Open);
         steps.push(Action::Batch { label: "withdraw[ERG/SYM] all 5e9 after TIP-902".into(), txs: vec![wd.clone()], expect_ok: true });
         steps.push(Action::Seal(None));
-        let mut node = rootn;
-        let mut taken = 0;
-        for a in &steps {
-            match eng.step(&node, a) {
-                StepOut::Next(n) => {
-                    node = n;
-                    taken += 1;
-                }
-                StepOut::Rejected => run.outcome("ergsym-large-before-activation:step-rejected"),
-                StepOut::Pruned => {
-                    run.outcome("ergsym-large-before-activation:engine-reported");
-                    break;
+        // the same pool asked for all of its liquidity *before* the activation (two blocks below it), and the activation then
+        // crossed: whatever the request leaves of the pool is what becomes built-in - a pool left at 0 : 0 is not created anew
+        // (seed C16-r13-2 let a user empty ERG/SYM as long as TIP-902 was not active)
+        let mut early = vec![
+            Action::Open,
+            Action::Batch { label: "faucet(5e9 ERG, 5e9 SYM)".into(), txs: vec![fund.clone()], expect_ok: true },
+            Action::Seal(None),
+            Action::Open,
+            Action::Batch { label: "deposit[ERG/SYM] 5e9 : 5e9 before TIP-902".into(), txs: vec![dep.clone()], expect_ok: true },
+            Action::Seal(None),
+            Action::Jump(below - 2),
+            Action::Open,
+            Action::Batch { label: "withdraw[ERG/SYM] all 5e9 two blocks before TIP-902".into(), txs: vec![wd.clone()], expect_ok: true },
+            Action::Seal(None),
+        ];
+        for _ in 0..5 {
+            early.push(Action::Open);
+            early.push(Action::Seal(None));
+        }
+        for (vname, steps) in [("withdrawn-after", steps), ("withdrawn-before", early)] {
+            let mut node = rootn.clone();
+            let mut taken = 0;
+            for a in &steps {
+                match eng.step(&node, a) {
+                    StepOut::Next(n) => {
+                        node = n;
+                        taken += 1;
+                    }
+                    StepOut::Rejected => run.outcome("ergsym-large-before-activation:step-rejected"),
+                    StepOut::Pruned => {
+                        run.outcome("ergsym-large-before-activation:engine-reported");
+                        break;
+                    }
                 }
             }
+            run.set(&format!("scripted:ergsym-created-large-before-activation:{}:{:?}", vname, net), json!({"steps": steps.len(), "taken": taken, "final_height": node.model.height}));
         }
-        run.set(&format!("scripted:ergsym-created-large-before-activation:{:?}", net), json!({"steps": steps.len(), "taken": taken, "final_height": node.model.height}));
     }
 }
 
